@@ -224,6 +224,15 @@ impl Report {
                 samples.push(json!({ "kind": label, "case": v }));
             }
         }
+        if samples.is_empty() {
+            // a run that ended early (violation on the first case): show the violating cases instead
+            for v in inner.violations.iter().take(3) {
+                samples.push(json!({ "kind": "violating-case", "case": v.replay }));
+            }
+            if samples.is_empty() {
+                samples.push(json!({ "kind": "note", "case": "no sample was recorded by this run" }));
+            }
+        }
         coverage.insert("samples".into(), Value::Array(samples));
         coverage.insert("spaces".into(), json!(inner.spaces));
         coverage.insert("caps_hit".into(), json!(inner.caps));
